@@ -996,10 +996,12 @@ func TestC05(t *testing.T) {
 			c05CaseRRSeq(rt, rec, env)
 		case mode < 70:
 			c05CaseTblSeq(rt, rec, env, &poisoned)
-		case mode < 82:
+		case mode < 80:
 			c05CaseRRConc(rt, rec, env)
-		default:
+		case mode < 90:
 			c05CaseTblConc(rt, rec, env, &poisoned)
+		default:
+			c05CaseStorm(rt, rec, env, &poisoned)
 		}
 	})
 
